@@ -135,17 +135,39 @@ def run(ctx):
                                   vl, stored, dt),
                               "returns %r; validations %r, decodings %r" % (
                                   out[1], vals, parses))
-        ctx.instance(R)
-        ln = Abs(seg, label="line", vlevel=vl, _data={"xx": 5},
-                 _datatype={"xx": "i"})
-        out = eval_function(repo, f_vf, [ln, "xx"], hooks=VH(repo))
-        vals = [e for e in out[2] if e[0] == "validate"]
-        ok = out[0] == "return" and vals == [("validate", 5, "i")]
-        ctx.oblige(ok)
-        if not ok:
-            ctx.violation(R, f_vf.short, "vlevel=%d" % vl,
-                          "explicit validation runs %r" % (vals,))
+        # explicit validation looks at what is stored: a decoded value, or
+        # the text of a field that was not decoded yet (decoding it first
+        # with the non-validating decoder of level 0 would lose the errors)
+        for stored in (5, "12"):
+            ctx.instance(R)
+            ln = Abs(seg, label="line", vlevel=vl, _data={"xx": stored},
+                     _datatype={"xx": "i"})
+            class VH2(VH):
+                # field reads inside validate_field run the real get()
+                def method(self, ev, base, name, args, kwargs, node):
+                    if name == "get" and isinstance(base, Abs) and \
+                            base.label == "line":
+                        return NotImplemented
+                    return super().method(ev, base, name, args, kwargs, node)
+            out = eval_function(repo, f_vf, [ln, "xx"], hooks=VH2(repo))
+            vals = [e for e in out[2] if e[0] == "validate"]
+            parses = [e for e in out[2] if e[0] == "parse"]
+            ok = out[0] == "return" and \
+                vals == [("validate", stored, "i")] and not parses and \
+                ln.attrs["_data"]["xx"] == stored
+            ctx.oblige(ok)
+            if not ok:
+                ctx.violation(R, f_vf.short,
+                              "vlevel=%d,stored=%r" % (vl, stored),
+                              "explicit validation runs %r (decodings %r, "
+                              "stored afterwards %r); it must validate the "
+                              "stored value itself" % (
+                                  vals, parses, ln.attrs["_data"].get("xx")))
     ctx.exhaustive[R] = True
+
+    # ------------------------------------------------------------------
+    from .c20 import rule_write_time_validation
+    rule_write_time_validation(ctx, "C18.write_threshold")
 
     # ------------------------------------------------------------------
     R = "C18.explicit_validate"
